@@ -70,8 +70,15 @@ static int same(const struct res *a, const struct res *b) { return a->err == b->
 
 struct stats { unsigned long calls, parts, vac, mism, bcont, strlen_last; int nwit; };
 
+/* one-shot results are computed on demand for long inputs (a fresh parser on every prefix is quadratic) */
+static unsigned char *os_have; static unsigned long os_lazy_calls;
+static const struct res *OS(const unsigned char *s, struct res *os, size_t i, int flags)
+{
+	if (os_have && !os_have[i]) { oneshot(s, i, flags, 0, &os[i]); os_have[i] = 1; os_lazy_calls++; }
+	return &os[i];
+}
 /* check one partition; cuts[0..nc) are the chunk end positions (non-decreasing, last == n) */
-static void check_partition(const unsigned char *s, size_t n, int flags, const struct res *os, const size_t *cuts, int nc, struct stats *st)
+static void check_partition(const unsigned char *s, size_t n, int flags, struct res *os, const size_t *cuts, int nc, struct stats *st)
 {
 	struct json_tokener *tok = json_tokener_new();
 	size_t prev = 0; int j;
@@ -90,7 +97,7 @@ static void check_partition(const unsigned char *s, size_t n, int flags, const s
 		free(buf);
 		st->calls++;
 		r.end += prev;
-		if (!same(&r, &os[cuts[j]])) {
+		if (!same(&r, OS(s, os, cuts[j], flags))) {
 			st->mism++;
 			if (st->nwit < 2) {
 				int k;
@@ -125,9 +132,9 @@ static void cmd_split(int nt, char **t)
 		int flags = FLAGSETS[f];
 		size_t cuts[64];
 		if (!(mask & (1 << f))) continue;
-		for (i = 0; i <= n; i++) oneshot(s, i, flags, 0, &os[i]);
-		st.calls += n + 1;
-		if (n <= 256 || nrand < 0)
+		if (n > 8192) { free(os_have); os_have = (unsigned char *)calloc(n + 1, 1); os_lazy_calls = 0; }
+		else { free(os_have); os_have = NULL; for (i = 0; i <= n; i++) oneshot(s, i, flags, 0, &os[i]); st.calls += n + 1; }
+		if ((n <= 256 || nrand < 0) && n <= 8192)
 			for (i = 0; i <= n; i++) { cuts[0] = i; cuts[1] = n; check_partition(s, n, flags, os, cuts, 2, &st); }
 		if (n <= max3)
 			for (i = 0; i <= n; i++) for (j = i; j <= n; j++) { cuts[0] = i; cuts[1] = j; cuts[2] = n; check_partition(s, n, flags, os, cuts, 3, &st); }
@@ -144,6 +151,7 @@ static void cmd_split(int nt, char **t)
 			{ int a, b; for (a = 0; a < nc; a++) for (b = a + 1; b < nc; b++) if (cuts[b] < cuts[a]) { size_t x = cuts[a]; cuts[a] = cuts[b]; cuts[b] = x; } }
 			check_partition(s, n, flags, os, cuts, nc, &st);
 		}
+		if (os_have) st.calls += os_lazy_calls;
 	}
 	{ /* everything the parsers held must be gone */
 		struct obuf tmp = out; (void)tmp;
